@@ -582,6 +582,34 @@ fn server_reply(tx: [u8; 12], method: Method, class: MessageClass, attrs: &[(Att
     m.raw
 }
 
+/// every authenticated request builder on `env.client` in its CURRENT auth state, which must be `cr`: byte-compared with
+/// the model, MESSAGE-INTEGRITY verified under MD5(USERNAME:REALM-in-the-message:password) by the reference crate,
+/// REALM / NONCE = the ones of `cr`
+fn builders_after(run: &mut Run, rng: &mut Rng, env: &Env, cr: &Creds, class: &str) {
+    let c = &env.client;
+    let peer = gen_addr(rng);
+    let ch = rng.range(0x4000, 0x7fff) as u16;
+    let mut built: Vec<(&str, Vec<u8>, [u8; 12], Option<SocketAddr>, u32, Vec<u8>)> = vec![
+        { let (b, tx) = env.rt.block_on(c.verif_create_permission_packet(peer)).unwrap(); ("perm", b, tx, Some(peer), 0, vec![]) },
+        { let (b, tx) = env.rt.block_on(c.verif_create_channel_rebind_packet(peer, ch)).unwrap(); ("bind", b, tx, Some(peer), ch as u32, vec![]) },
+        { let (b, tx) = env.rt.block_on(c.verif_create_refresh_packet()).unwrap(); ("refresh", b, tx, None, 600, vec![]) },
+        { let (b, tx) = c.verif_create_destroy_packet().unwrap(); ("refresh", b, tx, None, 0, vec![]) },
+    ];
+    let dl = *rng.pick(&[0usize, 5, 100]); let data = rng.bytes(dl);
+    { let mut b = [0u8; 4096]; while env.server.try_recv_from(&mut b).is_ok() {} }
+    env.rt.block_on(c.verif_send_indication(peer, &data)).unwrap();
+    if let Some(b) = env.sent() { let tx: [u8; 12] = b[8..20].try_into().unwrap(); built.push(("sendind", b, tx, Some(peer), 0, data.clone())); } else { run.count("udp_loopback_loss"); }
+    for (kind, b, tx, p, n, d) in built {
+        let case = case_req(run, kind, &tx, Some(cr), p, n, &d, &b);
+        if let Err(e) = verifies_under_own_realm(&b, &cr.pass) { run.fail(&format!("codec:turn:{class}:{kind}:message-integrity-not-under-realm-in-message"), &case, &e); }
+        let mut m = Message::new(); m.raw = b.clone(); let _ = m.decode();
+        if m.get(ATTR_REALM).ok().as_deref() != Some(cr.realm.as_bytes()) || m.get(ATTR_NONCE).ok().as_deref() != Some(cr.nonce.as_bytes()) {
+            run.fail(&format!("codec:turn:{class}:{kind}:realm-or-nonce-not-the-challenged-one"), &case, &format!("realm {:?} nonce {:?}", m.get(ATTR_REALM).ok().map(|v| String::from_utf8_lossy(&v).to_string()), m.get(ATTR_NONCE).ok().map(|v| String::from_utf8_lossy(&v).to_string()))); }
+        if m.get(ATTR_USERNAME).ok().as_deref() != Some(cr.user.as_bytes()) { run.fail(&format!("codec:turn:{class}:{kind}:username"), &case, ""); }
+    }
+    run.count(&format!("turn_builders_{class}"));
+}
+
 fn allocate_dialogue(run: &mut Run, rng: &mut Rng, env: &Env) {
     let cr = Creds::make(rng);
     let relayed = gen_addr(rng);
@@ -641,6 +669,18 @@ fn allocate_dialogue(run: &mut Run, rng: &mut Rng, env: &Env) {
             if lt != want { run.fail("codec:turn:allocate:lifetime", &c1, &format!("{lt} vs {want}")); }
             if env.client.verif_auth_key() != Some(cr.key()) { run.fail("codec:turn:allocate:stored-key", &c1, ""); }
             run.count("allocate_dialogue_ok");
+            // requests built from the state the REAL allocate() left (not from the hook `verif_set_auth`): as it is, after a
+            // stale-nonce challenge in the same realm, and after a challenge with a new realm
+            let mut cur = cr.clone();
+            for step in ["as-left-by-allocate", "after-challenge-same-realm", "after-challenge-new-realm"] {
+                if step != "as-left-by-allocate" {
+                    let n = rng.range(0, 30) as usize;
+                    cur.nonce = format!("n-{}", utf8_of_len(rng, n));
+                    if step == "after-challenge-new-realm" { cur.realm = format!("other-{}", cur.realm); }
+                    env.rt.block_on(env.client.verif_update_nonce(&cur.realm, &cur.nonce));
+                }
+                builders_after(run, rng, env, &cur, &format!("after-real-allocate:{step}"));
+            }
         }
         Err(e) if e.to_string().contains("elapsed") || e.to_string().contains("timed out") => run.count("allocate_dialogue_timeout_under_load"),
         Err(e) => run.fail("codec:turn:allocate:dialogue-failed", &c1, &e.to_string()),
